@@ -192,7 +192,7 @@ def run(ck):
     if not _table_checks(ck):
         return
     rng = ck.rng
-    n = ck.n(300, 10000)
+    n = ck.n(300, 6000)
     objs = [_gen(rng) for _ in range(n)]
     # make sure that every (scheme, order, nf_ref) class shows up
     for scheme in ("POLE", "MSBAR"):
